@@ -189,8 +189,12 @@ func (g *Rand) TypedDoc(depth int) map[string]interface{} {
 	put("t", func() interface{} { return gen.Pick(r, strs) })
 	put("b", func() interface{} { return r.Bool() })
 	d["z"] = nil
+	long := 0
+	if depth == 0 && r.Chance(1, 12) {
+		long = 17 + r.Intn(50) // beyond the small-input fast paths of sorting and searching code
+	}
 	put("an", func() interface{} {
-		n := r.Intn(5)
+		n := r.Intn(5) + long
 		a := make([]interface{}, n)
 		for i := range a {
 			a[i] = gen.Pick(r, nums)
@@ -198,7 +202,7 @@ func (g *Rand) TypedDoc(depth int) map[string]interface{} {
 		return a
 	})
 	put("as", func() interface{} {
-		n := r.Intn(5)
+		n := r.Intn(5) + long
 		a := make([]interface{}, n)
 		for i := range a {
 			a[i] = gen.Pick(r, strs)
@@ -227,6 +231,14 @@ func (g *Rand) TypedDoc(depth int) map[string]interface{} {
 		put("o", func() interface{} { return g.TypedDoc(depth + 1) })
 		put("ao", func() interface{} {
 			n := r.Intn(4)
+			if long > 0 {
+				// many small objects (not full typed documents: keeps the document size moderate)
+				a := make([]interface{}, long)
+				for i := range a {
+					a[i] = map[string]interface{}{"n": gen.Pick(r, nums), "s": gen.Pick(r, strs), "m": float64(i % 3), "an": []interface{}{gen.Pick(r, nums)}}
+				}
+				return a
+			}
 			a := make([]interface{}, n)
 			for i := range a {
 				if r.Chance(1, 8) {
